@@ -18,6 +18,17 @@ pub fn units(tier: &str, _seed: u64) -> Vec<String> {
     }
     v.push(unit(&[("shape", shapes[2]), ("n", "1"), ("fs", "PEN"), ("k", "sym"), ("what", "sub2"), ("lm", "1"), ("scale", "1")]));
     v.push(unit(&[("shape", shapes[0]), ("n", "2"), ("fs", "PEN"), ("k", "sym"), ("what", "perm"), ("lm", "1")]));
+    // auxiliary energy of a two-service system with a step without output energy between two steps whose output
+    // mixes differ: the by-service split of that step must not depend on which step comes before it
+    v.push(unit(&[("shape", "1/~U:CAL:GASNATURAL;1/~U:ACS:GASNATURAL;1/~X;1/~O:CAL;1/~O:ACS"), ("n", "3"), ("fs", "PEN"), ("k", "sym"), ("what", "perm"), ("zero", "c3_1,c4_1"), ("bud", "40")]));
+    // (annual sums of a dozen terms in another association are beyond what the solver decides: these units are kept
+    // for what they refute - path witnesses and same-path variants - and their budget is small)
+    // long series (a symbolic first step, fixed constants afterwards): monthly data split into half-months and
+    // reversed, with and without load matching - step counts on both sides of 12
+    for lm in ["0", "1"] {
+        v.push(unit(&[("shape", shapes[0]), ("n", "12"), ("win", "1"), ("fs", "PEN"), ("k", "sym"), ("what", "sub2"), ("lm", lm), ("scale", "1"), ("bud", "30")]));
+        v.push(unit(&[("shape", shapes[1]), ("n", "13"), ("win", "1"), ("fs", "PEN"), ("k", "sym"), ("what", "perm"), ("lm", lm), ("bud", "30")]));
+    }
     if tier == "thorough" {
         for s in shapes {
             v.push(unit(&[("shape", s), ("n", "3"), ("fs", "CAN"), ("k", "sym"), ("what", "perm")]));
